@@ -68,7 +68,8 @@ func Build(out string, o BuildOpts) error {
 		if v == "-" {
 			v = ""
 		}
-		args = append(args, "-ldflags", "-X main.version="+v)
+		// like a release build: commit, date and builder are set as well
+		args = append(args, "-ldflags", "-X main.version="+v+" -X main.commit=0123456789abcdef0123456789abcdef01234567 -X main.date=2025-01-02T03:04:05Z -X main.builtBy=goreleaser")
 	}
 	args = append(args, ".")
 	cmd := exec.Command("go", args...)
@@ -107,6 +108,7 @@ type Cmd struct {
 	// (on any file when InjectPath is empty) fail with
 	// InjectErr (e.g. "EIO", "ENOSPC"); the strace log (Strace must be set) then carries "(INJECTED)" lines.
 	InjectPath, InjectCall, InjectErr string
+	InjectWhen                        string // "" = every call, otherwise strace's when= expression (e.g. "2+": all but the first)
 	retries                           int
 }
 
@@ -214,7 +216,11 @@ func Run(c Cmd) *Result {
 		if c.InjectPath != "" {
 			args = append(args, "-P", c.InjectPath)
 		}
-		args = append(args, "-e", "trace="+c.InjectCall, "-e", "inject="+c.InjectCall+":error="+c.InjectErr, c.Bin)
+		inj := "inject=" + c.InjectCall + ":error=" + c.InjectErr
+		if c.InjectWhen != "" {
+			inj += ":when=" + c.InjectWhen
+		}
+		args = append(args, "-e", "trace="+c.InjectCall, "-e", inj, c.Bin)
 		args = append(args, c.Args...)
 		cmd = exec.CommandContext(ctx, "strace", args...)
 	} else if c.Strace != "" {
@@ -290,6 +296,12 @@ func Run(c Cmd) *Result {
 		res.CPU = cmd.ProcessState.UserTime() + cmd.ProcessState.SystemTime()
 	}
 	res.Stdout, res.Stderr = so.Bytes(), se.Bytes()
+	if c.Strace != "" && c.retries < 20 && bytes.Contains(res.Stderr, []byte("strace: exec: Text file busy")) {
+		// the same race as above, seen by strace instead of by us
+		time.Sleep(25 * time.Millisecond)
+		c.retries++
+		return Run(c)
+	}
 	if err != nil {
 		var ee *exec.ExitError
 		if errors.As(err, &ee) {
